@@ -35,6 +35,7 @@ VECTOR_METHODS = [
     "as_boolean", "as_float", "as_integer", "as_object", "as_string", "as_bytes", "as_date", "as_datetime", "concat",
     "drop_na", "head", "tail", "replace_na", "sample", "sort", "sort_desc", "rank", "unique", "map", "range", "tolist",
     "to_string", "to_strings", "equal", "is_na", "dt_year", "re_sub", "str_upper", "get_memory_use",
+    "construct_from", "construct_from",
 ]
 ANY_KINDS = ["f", "i", "b", "s", "u", "d", "t", "td", "o", "ob"]
 IDENTITY_CASTS = [("b", "as_boolean"), ("f", "as_float"), ("i", "as_integer"), ("o", "as_object"), ("oi", "as_object"),
@@ -65,7 +66,7 @@ def _plan(draw, max_rows):
         kind = draw(st.sampled_from(ANY_KINDS + ["y", "oi"]))
         n = draw(st.integers(0, max_rows))
         return {"target": "vector", "kind": kind, "vals": draw(gen.values(kind, n)),
-                "m": draw(st.sampled_from(VECTOR_METHODS)), "a": draw(st.integers(0, 5))}
+                "m": draw(st.sampled_from(VECTOR_METHODS)), "a": draw(st.integers(0, 8))}
     n = draw(st.integers(1, max_rows))
     a = draw(_frame(n, "a"))
     b = draw(_frame(n if draw(st.booleans()) else draw(st.integers(1, max_rows)), "b"))
@@ -444,6 +445,17 @@ def _call_vector(m, v, a, kind):
     if m == "sample":
         np.random.seed(a)
         return v.sample(a)
+    if m == "construct_from":
+        # the constructors ("return a new vector") given an existing vector and a dtype written the way the
+        # documentation writes it: the generic class (np.datetime64, "U", bytes ...), the exact dtype, or none
+        generic = {"M": np.datetime64, "m": np.timedelta64, "U": "U", "S": bytes, "f": float, "i": int, "b": bool,
+                   "O": object}.get(v.dtype.kind)
+        dtype = [generic, v.dtype, None][a % 3]
+        ctor = [di.Vector, di.Vector.fast, di.DataFrameColumn][(a // 3) % 3]
+        try:
+            return ctor(v, dtype) if dtype is not None else ctor(v)
+        except (TypeError, ValueError):
+            return v.copy()
     if m == "sort": return v.sort(dir=1)
     if m == "sort_desc": return v.sort(dir=-1)
     if m == "rank": return v.rank(method=["min", "max", "ordinal"][a % 3])
